@@ -108,10 +108,25 @@ fn judge_counts(n: usize, k: usize, kind: Kind, level: f64, case: &dyn Fn() -> V
     let z = call(|| proportion::ci_z_normal(c, n, k)).map(|i| Obs::of64(&i));
     l.eval();
     let domz = expected_domain_wald(n, k);
+    // A one-sided Wald interval [p - z*sd, 1] (resp. [0, p + z*sd]) does not exist when its finite end lies
+    // beyond the natural far end — possible only for negative z below about -3.2 (levels < 0.0008): there
+    // the statement cannot be met by any well-formed interval, so whatever the crate answers is not judged.
+    let crossed = {
+        let zq = norm_ppf_cached(kind.target(level));
+        let p = k as f64 / n as f64;
+        let sd = (p * (1.0 - p) / n as f64).sqrt();
+        match kind {
+            Kind::Upper => p - zq * sd > 1.0 - 1e-12,
+            Kind::Lower => p + zq * sd < 1e-12,
+            Kind::Two => false,
+        }
+    };
     match &z {
         Out::Panic(p) => l.violation(format!("ci_z_normal|panic@{}", p.location), format!("ci_z_normal panics: {}", p.message), case(), json!({"input": inp()})),
         Out::Err(f, s) => {
-            if domz.is_empty() {
+            if domz.is_empty() && crossed && k <= n {
+                l.count("wald: one-sided bound beyond the natural far end (no well-formed interval exists; not judged)");
+            } else if domz.is_empty() {
                 let b = if k == 10 || n - k == 10 { "boundary(k=10_or_n-k=10)" } else { "interior" };
                 l.violation(format!("ci_z_normal|admissible-rejected|{}|{}", f.name(), b), format!("ci_z_normal rejects counts with k >= 10 and n-k >= 10 ({})", b), case(), json!({"input": inp(), "error": s}));
             } else if !domz.contains(f) {
@@ -123,6 +138,8 @@ fn judge_counts(n: usize, k: usize, kind: Kind, level: f64, case: &dyn Fn() -> V
         Out::Ok(o) => {
             if !domz.is_empty() {
                 l.violation(format!("ci_z_normal|inadmissible-accepted|{}", domz[0].name()), "ci_z_normal accepts counts with k < 10 or n-k < 10".to_string(), case(), json!({"input": inp(), "observed": o.json()}));
+            } else if crossed {
+                l.count("wald: one-sided bound beyond the natural far end (no well-formed interval exists; not judged)");
             } else {
                 l.count("wald:value-judged");
                 let zq = norm_ppf_cached(kind.target(level));
@@ -425,6 +442,35 @@ pub fn run(run: &Arc<Run>) {
             }
         }
     });
+    // levels outside the customary grid: far tails (1 - 2^-j, 1 - 1e-10, 1e-12, ...: every level inside (0,1) is a
+    // valid confidence) and levels a hair beside the customary quantiles 0.9 .. 0.9995, one-sided and two-sided (a
+    // table, a cache or a clamp keyed on "usual" levels answers those with the quantile of the neighbour)
+    let mut special: Vec<(Kind, f64)> = vec![];
+    for lv in crate::props::c10::far_tail_levels() {
+        for kind in KINDS {
+            special.push((kind, lv));
+        }
+    }
+    for q in [0.9, 0.95, 0.975, 0.99, 0.995, 0.999, 0.9995] {
+        for d in [-1.6e-6, -3e-7, -1e-9, 1e-9, 3e-7, 1.6e-6] {
+            special.push((Kind::Upper, q + d));
+            special.push((Kind::Lower, q + d));
+            special.push((Kind::Two, 2.0 * (q + d) - 1.0));
+        }
+    }
+    run.par(run.cfg.by(1_500u64, 60_000), |i, l| {
+        let mut r = Rng::from(&[seed, 0xc025, i]);
+        let n = if i % 3 == 0 { r.range(4, 60) as usize } else { (r.uniform((60f64).ln(), (1e7f64).ln())).exp() as usize };
+        let k = match r.below(4) {
+            0 => 2 + r.below(3) as usize,
+            1 => n - 2 - r.below(3).min(n as u64 - 4) as usize,
+            _ => r.range(2, n as i64 - 2) as usize,
+        };
+        for &(kind, level) in special.iter() {
+            l.count("level beside a customary quantile / far-tail level judged");
+            judge_counts(n, k, kind, level, &|| json!({"what": "counts", "n": n, "k": k, "kind": kind, "level": level}), l, false);
+        }
+    });
     // ratios outside (0,1]
     let mut l = run.local();
     for n in [4usize, 10, 100, 1000] {
@@ -444,5 +490,6 @@ pub fn run(run: &Arc<Run>) {
         "sampled beyond exhaustive bound",
         "sampled population beyond 2^32",
         "inadmissible (n,k) visited",
+        "level beside a customary quantile / far-tail level judged",
     ]);
 }
